@@ -167,6 +167,23 @@ def native_kind(row):
     return None
 
 
+def git_class(m, cls):
+    """Input class of a minimal failing history as git sees it.  Git has no file ids: 'modified', 'replaced by another
+    object', 'kind or mode changed' are all the same event there -- the blob entry at a path differs from the first
+    parent's.  When the failure needs the one-character name and the last revision changes what that path holds
+    (a file or symlink before and after), that is the class."""
+    if not m or not cls or "+one-character-name" not in cls:
+        return cls
+    n = len(m["P"])
+    if m["P"][n - 1]:
+        base = {tuple(e["p"]): e for e in m["T"][m["P"][n - 1][0] - 1]}
+        cur = {tuple(e["p"]): e for e in m["T"][n - 1]}
+        b, c = base.get(("a",)), cur.get(("a",))
+        if b and c and "directory" not in (b["k"], c["k"]) and (b["k"], b["c"], b["x"]) != (c["k"], c["c"], c["x"]):
+            return "blob-at-one-character-path-changed"
+    return cls
+
+
 def git_kind(row):
     o = row["o"]
     if not o["ok"]:
@@ -432,7 +449,7 @@ def run(ctx):
     for row, failed, drifts, notes in bad:
         h, o = row["c"], row["o"]
         coarse = "unminimised-" + ("merge" if any(len(ps) > 1 for ps in h["P"]) else "linear")
-        cls = row.get("cls") or coarse
+        cls = git_class(row.get("min"), row.get("cls")) or coarse
         kind = row.get("pyfail") or ""
         where = "minimal failing history %s, found in %s" % (cc.hkey(row.get("min") or h), cc.hkey(h))
         rep = dict(cc.lean(row), minimal=row.get("min"))
